@@ -43,7 +43,7 @@ class FileHeaderItem(EFLRItem):
         if len(header_id) > self.header_id_length_limit:
             raise ValueError(f"'header_id' length should not exceed {self.header_id_length_limit} characters")
 
-        if not isinstance(sequence_number, int):
+        if not isinstance(sequence_number, int) or isinstance(sequence_number, bool):  # str(True) is not a number
             raise TypeError(f"'sequence_number' should be an integer; got {type(sequence_number)}: {sequence_number}")
         if not 0 < sequence_number <= self.max_sequence_number:
             raise ValueError(f"Sequence number must be a positive integer not larger than {self.max_sequence_number}; "
